@@ -2,6 +2,7 @@
 import contextlib
 import datetime
 import io
+import itertools
 import os
 import re
 import shutil
@@ -24,6 +25,10 @@ ASSUMPTIONS = ['vmon/ref/codec.py, vmon/ref/blocking.py build the files and the 
 KINDS = ('truncated_record', 'oversized_length', 'undecodable_mti', 'unknown_bitmap_bit', 'bad_field_length', 'bad_typed_value',
          'bad_pds_content', 'bad_icc_content', 'trailing_bytes')
 FRAMING = ('truncated_record', 'oversized_length')
+# how the caller walks the reader: the statement is about iteration, however it is spelled
+CONSUME = ('for', 'for', 'next_only', 'list', 'next_then_for', 'next2_then_list', 'islice_then_for', 'iter_twice')
+# over-long length values, including ones made of the 1014 fill byte and of ASCII/EBCDIC spaces and zeros
+OVERSIZED = (6001, 70000, 0x7fffffff, 0xfffffff0, 0x40404040, 0x00404040, 0x40400000, 0x20202020, 0xf0f0f0f0, 0x30303030, 0x00004040)
 
 
 def prepare(ctx):
@@ -92,7 +97,8 @@ def cases(ctx):
                         i += 1
                         total += 1
                         if ctx.mine(i):
-                            yield {'n': n, 'k': k, 'fault': kind, 'fmt': fmt, 'enc': enc}
+                            yield {'n': n, 'k': k, 'fault': kind, 'fmt': fmt, 'enc': enc,
+                                   'consume': CONSUME[(n + k + len(kind) + i) % len(CONSUME)]}
     if ctx.shard == 0:
         ctx.exhaustive_subspace('n in %s x every k x %d fault kinds x {vbs,1014} x {latin_1,cp500}' % (ns, len(KINDS)), total)
 
@@ -116,7 +122,8 @@ def judge(ctx, case):
             stream = head + rec_k
             want_ctx_exact = None
         else:
-            big = rng.choice([6001, 70000, 0x7fffffff, 0xfffffff0])
+            big = OVERSIZED[(n * 7 + k * 3 + (1 if blocked else 0) + (0 if enc == 'latin_1' else 5)) % len(OVERSIZED)]
+            ctx.seen('oversized length values', '%08x' % big)
             rec_k = big.to_bytes(4, 'big') + wires[k - 1]
             stream = head + rec_k + refb.vbs(wires[k:])
             want_ctx_exact = None
@@ -136,9 +143,51 @@ def judge(ctx, case):
     got = []
     rdr = []
 
+    consume = case.get('consume', 'for')
+    ctx.seen('consumption styles', consume)
+
     def body():
         r = m.IpmReader(io.BytesIO(data), encoding=enc, blocked=blocked)
         rdr.append(r)
+        if consume == 'next_only':
+            while True:
+                try:
+                    got.append(next(r))
+                except StopIteration:
+                    return
+        if consume == 'list':
+            for d in iter(lambda: next(r), None):      # noqa - drains through next(); errors propagate
+                got.append(d)
+            return
+        if consume in ('next_then_for', 'next2_then_list', 'islice_then_for'):
+            head = 2 if consume == 'next2_then_list' else 1
+            if consume == 'islice_then_for':
+                for d in itertools.islice(r, head):
+                    got.append(d)
+            else:
+                for _ in range(head):
+                    try:
+                        got.append(next(r))
+                    except StopIteration:
+                        return
+            if consume == 'next2_then_list':
+                rest = []
+                try:
+                    for d in r:
+                        rest.append(d)
+                finally:
+                    got.extend(rest)
+                return
+        if consume == 'iter_twice':
+            it = iter(r)
+            try:
+                got.append(next(it))
+            except StopIteration:
+                return
+            r2 = iter(r)
+            for d in r2:
+                got.append(d)
+            return
         for d in r:
             got.append(d)
     kind2, val = ctx.call(body, budget=sentinel.budget_for(len(data)) + 200000)
@@ -220,6 +269,10 @@ def require(m):
     reasons = []
     if set(m['classes'].get('fault kinds', ())) != set(KINDS):
         reasons.append('fault kinds not all driven')
+    if set(m['classes'].get('consumption styles', ())) != set(CONSUME):
+        reasons.append('consumption styles not all driven')
+    if '40404040' not in set(m['classes'].get('oversized length values', ())):
+        reasons.append('fill-byte length value never driven')
     if not {1, 2, 3} <= set(m['classes'].get('fault positions k', ())):
         reasons.append('fault positions beyond the first record not driven')
     if not m['counters'].get('tool runs') and not m['violations']:
